@@ -30,7 +30,9 @@ MANIFEST = {
 RULE = ('generated importable modules (as C07: functions, async functions, classes, static/class methods, properties with setters, decorated '
         'callables with functools.wraps and decorator factories - local ones and ones imported from another module, whose wrappers keep __module__ but have foreign __globals__ -, definitions inside if/else/try/with/for/while, imported functions and classes '
         'that carry doctests of their own, redefinitions, nested definitions, main guard), imported with '
-        'util_import.import_module_from_path under unique names: link 1 static model vs static code, link 2 dynamic model vs dynamic code '
+        'util_import.import_module_from_path under unique names, files written as bytes (BOM / CRLF / CR / coding cookie variants); plus scratch PACKAGES '
+        'whose __init__.py files re-export callables of their own submodules (relative / absolute spelling, renamed, star import, module '
+        'objects, __all__) and of a sibling package whose name has the package name as a prefix, collected as a file and as a directory: link 1 static model vs static code, link 2 dynamic model vs dynamic code '
         'on the vars() dump, link 3 execModule vs the dump, and static vs dynamic code end to end x 3 styles; non-trivial = module with a '
         'class or an import; distinct = distinct source')
 ASSUMPTIONS = ['importing a generated module binds exactly what execModule says (validated by link 3 on every module)',
@@ -52,16 +54,20 @@ def proj_filter(p):
     return '|'.join(out)
 
 
-def check_module(m, res, d, label):
+def check_module(m, res, d, label, src=None, path=None, inp=None):
+    """src/path/inp: a module that is already on disk as part of a package (`__init__.py` with re-exports)"""
     from xdoctest.utils import util_import
-    src = m.source
-    path, modname = cc.write_module(d, src)
+    src = m.source if src is None else src
+    if path is None:
+        path, modname = cc.write_module(d, src)
+    else:
+        modname = None
     c07._cnt(res, 'modules')
     for f in sorted(m.features):
         c07._tag(res, f)
     if any('.' in k for k, _ in m.inventory) or 'import' in m.features:
         res['nontriv'].add(hash(src))
-    inp = {'kind': 'module-static-dynamic', 'source': src, 'label': label}
+    inp = inp or {'kind': 'module-static-dynamic', 'source': src, 'label': label}
     # link 1: static model vs static code
     model = cc.model_calldefs([src])[0]
     impl, cds = C.real_calldefs(src)
@@ -76,6 +82,7 @@ def check_module(m, res, d, label):
         res['unknown'] += 1
         c07._tag(res, 'import-failed:' + type(ex).__name__)
         return
+    modname = modname or module.__name__
     try:
         toks = C.module_tokens(src, modname)
         graph = C.graph_tokens(module)
@@ -94,8 +101,13 @@ def check_module(m, res, d, label):
             res['disagree'].append(('link2:dynamic', inp, a[0][:400], rd[:400]))
         # link 3: execModule vs the real module object
         c07._cnt(res, 'link3:exec')
-        if proj_filter(a[1]) != proj_filter(a[2]):
-            res['disagree'].append(('link3:exec', inp, proj_filter(a[2])[:400], proj_filter(a[1])[:400]))
+        p_real, p_model = proj_filter(a[1]), proj_filter(a[2])
+        if ' import *' in src:
+            # a star import binds names the mini-AST does not list: a later def re-binds such a key in place, so only
+            # the ORDER of the module dict is outside the model; the entries are compared as a set
+            p_real, p_model = '|'.join(sorted(p_real.split('|'))), '|'.join(sorted(p_model.split('|')))
+        if p_real != p_model:
+            res['disagree'].append(('link3:exec', inp, p_model[:400], p_real[:400]))
         # the theorem on this instance
         c07._tag(res, 'in_fragment=' + a[3])
         if a[3] == '1':
@@ -130,6 +142,139 @@ def check_module(m, res, d, label):
         cc.forget_module(modname)
 
 
+# ---------------------------------------------------------------------------- packages that re-export their own callables
+
+def gen_package(rng):
+    """{relative path: source} of a package whose `__init__.py` files re-export callables of their own submodules (relative and
+    absolute spelling, renamed, star, module objects, __all__) and of a sibling package whose NAME starts with the package's;
+    plus the generated modules by relative path. Every re-exported callable carries doctests: none of them belongs to the
+    importing module."""
+    pkg = cc.unique_modname('xdvpkg')
+    oth = pkg + '_sib'
+    o = gm.Opts(max_top=3, unexecuted_defs_p=0.0)
+    mods = {k: gm.gen_module(rng, o) for k in ('init', 'sub', 'inner', 'deep', 'oth')}
+
+    def tops(m):
+        return [cn for cn, _ in m.inventory if '.' not in cn and cn != '__doc__']
+
+    def reexport(m_target, lines):
+        src_lines = m_target.source.split('\n')
+        at = src_lines.index('import functools')
+        return '\n'.join(src_lines[:at] + lines + src_lines[at:])
+
+    own = set(tops(mods['init']))
+    sub_names, deep_names, oth_names = tops(mods['sub']), tops(mods['deep']), tops(mods['oth'])
+    pick = lambda names, k: rng.sample(names, min(k, len(names)))
+    lines = []
+    for n in pick(sub_names, 3):
+        lines.append(rng.choice(['from .sub import %s as re_%s' % (n, n), 'from %s.sub import %s as re_abs_%s' % (pkg, n, n)] +
+                                ([] if n in own else ['from .sub import %s' % n])))
+    lines.append(rng.choice(['from . import sub', 'from . import sub as sub_alias', 'import %s.sub' % pkg]))
+    lines.append('from .inner import deep as deep_alias')
+    for n in pick(deep_names, 2):
+        lines.append('from .inner.deep import %s as re_deep_%s' % (n, n))
+    for n in pick(oth_names, 2):
+        lines.append('from %s.mod import %s as re_sib_%s' % (oth, n, n))
+    if rng.random() < 0.4:
+        lines.insert(0, 'from .sub import *')
+    lines.append('__all__ = %r' % (sorted(own)[:3] + ['re_%s' % n for n in sub_names[:1]] + ['sub'],))
+    inner_lines = ['from ..sub import %s as up_%s' % (n, n) for n in pick(sub_names, 2)]
+    inner_lines += ['from .deep import %s as same_%s' % (n, n) for n in pick(deep_names, 2)]
+    inner_lines.append(rng.choice(['from . import deep', 'from .deep import *']))
+    files = {
+        pkg + '/__init__.py': reexport(mods['init'], lines),
+        pkg + '/sub.py': mods['sub'].source,
+        pkg + '/inner/__init__.py': reexport(mods['inner'], inner_lines),
+        pkg + '/inner/deep.py': mods['deep'].source,
+        oth + '/__init__.py': '',
+        oth + '/mod.py': mods['oth'].source,
+    }
+    gens = {pkg + '/__init__.py': mods['init'], pkg + '/sub.py': mods['sub'], pkg + '/inner/__init__.py': mods['inner'],
+            pkg + '/inner/deep.py': mods['deep']}
+    return pkg, oth, files, gens
+
+
+def write_package(d, files):
+    helper = os.path.join(d, gm.HELPER_NAME + '.py')
+    with open(helper, 'w', encoding='utf8') as f:
+        f.write(gm.HELPER_SOURCE)
+    for rel, src in files.items():
+        p = os.path.join(d, rel)
+        os.makedirs(os.path.dirname(p), exist_ok=True)
+        with open(p, 'wb') as f:
+            f.write(C.to_bytes(src))
+
+
+def forget_package(*prefixes):
+    import sys
+    for k in list(sys.modules):
+        if any(k == p or k.startswith(p + '.') for p in prefixes):
+            sys.modules.pop(k, None)
+
+
+def observe_tree(target, root, style, analysis):
+    """sorted [relative module path, callname:num, docsrc] of parse_doctestables on a file or a package directory"""
+    from xdoctest import core
+    with cc.quiet():
+        exs = list(core.parse_doctestables(target, style=style, analysis=analysis))
+    return sorted([os.path.relpath(str(e.modpath), root), '%s:%d' % (e.callname, e.num), e.docsrc] for e in exs)
+
+
+def package_fails(files, pkg, oth, target_rel, style, expected=None):
+    """the property on a package written to a scratch directory; returns a description of the difference or None"""
+    with cc.scratch_dir() as d:
+        write_package(d, files)
+        try:
+            target = os.path.join(d, target_rel)
+            st = observe_tree(target, d, style, 'static')
+            dy = observe_tree(target, d, style, 'dynamic')
+        finally:
+            forget_package(pkg, oth)
+    if st != dy:
+        return {'only_static': [x[:2] for x in st if x not in dy][:8], 'only_dynamic': [x[:2] for x in dy if x not in st][:8]}
+    if expected is not None and [x[:2] for x in dy] != expected:
+        return {'expected': expected[:12], 'dynamic': [x[:2] for x in dy][:12]}
+    return None
+
+
+def check_package(rng, res, label):
+    pkg, oth, files, gens = gen_package(rng)
+    c07._cnt(res, 'packages')
+    res['nontriv'].add(hash(repr(sorted(files.items()))))
+    c07._tag(res, 'package:star-import' if 'import *' in files[pkg + '/__init__.py'] else 'package:no-star')
+    # the package __init__ as a single module: the three links and the property
+    with cc.scratch_dir() as d:
+        write_package(d, files)
+        try:
+            rel = pkg + '/__init__.py'
+            check_module(gens[rel], res, d, label, src=files[rel], path=os.path.join(d, rel),
+                         inp={'kind': 'package-static-dynamic', 'files': files, 'pkg': pkg, 'oth': oth, 'target': rel, 'label': label})
+        finally:
+            forget_package(pkg, oth)
+    # the package directory, and the nested __init__ on its own: static = dynamic = inventory
+    for target in (pkg, pkg + '/inner/__init__.py', pkg + '/__init__.py'):
+        for style in (['auto'] if target != pkg else cc.STYLES):
+            expected = sorted([rel, '%s:%d' % (cn, num)] for rel, m in gens.items()
+                              if (target == pkg or rel == target) for cn, num, _ in cc.expected_ids(m, style))
+            c07._cnt(res, 'package-static-vs-dynamic')
+            f = package_fails(files, pkg, oth, target, style, expected)
+            if f:
+                res['expect'].append(('package-static-vs-dynamic',
+                                      {'kind': 'package-static-dynamic', 'files': files, 'pkg': pkg, 'oth': oth, 'target': target,
+                                       'style': style, 'label': label},
+                                      expected[:20], f, 'static / dynamic collection of a package with re-exports differ (from each other or from the modules\' own definitions)'))
+
+
+def _w_packages(args):
+    seed, shard, count = args
+    res = c07._new_result()
+    rng = random.Random('c16p:%d:%d' % (seed, shard))
+    for i in range(count):
+        check_package(rng, res, 'c16p:%d:%d:%d' % (seed, shard, i))
+    res['nontriv'] = len(res['nontriv'])
+    return res
+
+
 def _w_modules(args):
     seed, shard, count = args
     res = c07._new_result()
@@ -144,6 +289,7 @@ def _w_modules(args):
 
 def correspondence(ctx, corr):
     c07.merge(corr, par.pmap(_w_modules, [(ctx.seed, s, 16 if ctx.quick else 120) for s in range(16)]))
+    c07.merge(corr, par.pmap(_w_packages, [(ctx.seed, s, 2 if ctx.quick else 12) for s in range(16)]))
 
 
 def _fails(source, style):
@@ -199,6 +345,15 @@ def replay(ctx, failing):
         for style in ([inp['style']] if 'style' in inp else cc.STYLES):
             f = _fails(inp['source'], style)
             print('style=%s: %s' % (style, f or 'static and dynamic agree'))
+            bad = bad or bool(f)
+        return bad
+    if inp.get('kind') == 'package-static-dynamic':
+        for rel in sorted(inp['files']):
+            print('----- %s\n%s' % (rel, inp['files'][rel]))
+        bad = False
+        for style in ([inp['style']] if 'style' in inp else cc.STYLES):
+            f = package_fails(inp['files'], inp['pkg'], inp['oth'], inp['target'], style)
+            print('target=%s style=%s: %s' % (inp['target'], style, f or 'static and dynamic agree'))
             bad = bad or bool(f)
         return bad
     if inp.get('kind') == 'module-inventory':
